@@ -1468,8 +1468,13 @@ def _orelse_preferred_as_body(body: Sequence[ast.AST], orelse: Sequence[ast.AST]
     orelse_branches = _count_branches(orelse)
     if orelse_blocking and body_blocking and body_branches >= 2 * orelse_branches:
         return True
+    if orelse_blocking and body_blocking and orelse_branches >= 2 * body_branches:
+        return False  # It would be swapped right back
 
-    return isinstance(orelse[0], (ast.Return, ast.Continue, ast.Break)) and len(body) > 3
+    jumps = (ast.Return, ast.Continue, ast.Break)
+    if isinstance(body[0], jumps) and len(orelse) > 3:
+        return False  # It would be swapped right back
+    return isinstance(orelse[0], jumps) and len(body) > 3
 
 
 def _sequential_similar_ifs(source: str, root: ast.AST) -> Collection[ast.If]:
